@@ -32,4 +32,15 @@ PROPS = {
         assumptions=["children/parents are compared as sets of nodes (Go returns one entry per edge and per recorded parent key)"],
         exhaustive_in_thorough=False,
     ),
+    "C16": dict(
+        streams=[dict(mode="annot", quick=40000, thorough=600000, workers=12)],
+        rule="comment blocks of 1-8 lines printed as the doc comment of a real Go func (indent, preceding lines varied), parsed by go/parser and gast.MapDocListToCommentBlock: grammar-generated annotation lines (15 names, values over the whole class incl. spaces/braces/backslash, nested JSON5 objects/arrays/strings containing } ) , }) , unquoted keys, trailing commas, single quotes, tab/space separators, unicode descriptions, trailing blanks), 8% malformed JSON5, 8% near-miss lines, 12% free text, 8% rune-level mutations; every generated line carries the generator's intent so the round trip is checked against what was written, not against the model; non-trivial = the block contains at least one line the model parses as an attribute; distinct = distinct block",
+        trusted_base=COMMON_TB + [
+            "model Gleece/Model/Annot.lean is a hand-written matcher for the regex whose source text is pinned by Generated/Regexes.lean (regenerated from core/annotations/holder.go; theorem regex_text_is_modelled); RE2's leftmost-first semantics is argued in the model's header and sampled by the correspondence",
+            "github.com/titanous/json5 is a parameter (jsonOk); the harness evaluates it on every {...} substring of every line and hands the table to the driver",
+            "go/parser + go/scanner produce the comment texts (no line terminators inside a // comment)",
+        ],
+        partial=["parse_render holds under the explicit decidable predicate WF, whose last clause (no `})` + acceptable tail inside the description when a JSON part is present) is forced by the greedy `\\{.*\\}`; outside it the code mis-parses: finding C16-F1"],
+        assumptions=["a line's written value is everything between '(' and the first character outside the value class (so blanks before the comma belong to the value)"],
+    ),
 }
